@@ -165,6 +165,8 @@ func (tg *TCPGroup) worker() {
 			tg.acceptCh <- c
 		})
 		if err != nil {
+			// the group was closed meanwhile: nobody will ever take this connection
+			c.Close()
 			return
 		}
 	}
